@@ -21,7 +21,7 @@ if [ "$PATCH" != "-" ]; then (cd $WT && git apply "$PATCH") || { echo "patch doe
 B=/var/tmp/mutb_$$; mkdir -p $B
 VERIF_REPO=$WT VERIF_BUILD=$B /verif/build_sim.sh $([ "$RACE" = race ] && echo race || ([ "$RACE" = instr ] && echo instr || echo plain)) || exit 2
 BIN=$B/sim.test; EXTRA=""
-if [ "$RACE" = instr ]; then BIN=$B/sim.instr.test; fi
+if [ "$RACE" = instr ]; then EXTRA="-gyields"; fi
 if [ "$RACE" = race ]; then BIN=$B/sim.race.test; EXTRA="-racelog=$B/race -noref"; export GORACE="log_path=$B/race halt_on_error=0"; fi
 NW=${WORKERS:-8}; PER=$((RUNS/NW))
 for k in $(seq 0 $((NW-1))); do
